@@ -336,15 +336,59 @@ Proof.
   split; [exact Fr|]. split; [exact Ht|].
   split.
   { rewrite T1. f_equal. unfold true_samples. rewrite sum_fst_map. rewrite Fr.
-    rewrite fold_right_app, sum_repeat_acc. destruct (1 <=? tail) eqn:E1; cbn [fold_right].
+    rewrite fold_right_app, sum_repeat_acc. unfold tail, bs.
+    destruct (1 <=? N.of_nat (length r) / ch) eqn:E1; cbn [fold_right].
     - rewrite N.add_0_r. reflexivity.
     - apply N.leb_gt in E1. apply N.lt_1_r in E1. rewrite E1. reflexivity. }
-  split; [congruence|]. split; [congruence|]. split; [congruence|]. split; [congruence|]. split; [congruence|].
+  split; [congruence|]. split; [congruence|]. split; [congruence|].
+  split; [unfold bs; congruence|]. split; [unfold bs; congruence|].
   split; [exact T2|]. split; [exact T3|]. split; [rewrite T4, Md; reflexivity|].
   intros iv pts Hiv Hp.
   assert (Ei : e_interval (f_enc f) = Some iv) by congruence.
   destruct (finalize_points md5 md5_length p _ f iv pts I S Fn Ei Hfin Hp) as (C & Din & sel & reg & G & Dr & M).
-  split; [exact C|]. split; [exact Din|]. exists sel, reg. rewrite <- Sr, Erate in G. rewrite Sb in M. auto.
+  split; [exact C|]. split; [exact Din|]. exists sel, reg. rewrite Sr, Erate in G. rewrite Sb in M. auto.
+Qed.
+
+(* ---- C15, declared-length contract of FlacSampleWriter (soundness direction): a run that
+   succeeds wrote exactly the declared number of PCM frames; with no declared total the count of
+   whole PCM frames is what STREAMINFO records, and it is between 1 and 2^36-1 *)
+Theorem sample_contract prefix o rate bps ch total w chunks f :
+  options_wf o -> sample_new p prefix o rate bps ch total = Ok w ->
+  sample_run enc_block md5 p w chunks = Ok f -> counters_fit (f_enc f) ->
+  exists cs r, drain (N.to_nat (ch * o_block_size o)) (concat chunks) = (cs, r) /\
+    let written := o_block_size o * N.of_nat (length cs) + N.of_nat (length r) / ch in
+    si_total (f_si f) = Some written /\ 1 <= written < MAX_SAMPLES /\
+    match total with
+    | Some t => t = ch * written        (* the declared total, in interleaved samples *)
+    | None => True
+    end.
+Proof.
+  intros Ho Hn Hr Fit.
+  destruct (sample_c09 prefix o rate bps ch total w chunks f Ho Hn Hr Fit) as (cs & r & D & C).
+  cbv zeta in C. destruct C as (_ & _ & Tot & _).
+  exists cs, r. split; [exact D|]. cbv zeta. split; [exact Tot|].
+  destruct (sample_run_spec prefix o rate bps ch total w chunks f Ho Hn Hr Fit) as (cs' & r' & D' & Sp).
+  rewrite D in D'. inversion D'; subst cs' r'. clear D'.
+  cbv zeta in Sp. destruct Sp as (I & S & Fn & Se & _ & _ & _ & Hfin).
+  destruct (finalize_streaminfo md5 md5_length p _ f I S Fn Hfin) as (T1 & _ & _ & _ & _ & _ & _ & _ & _ & Rg).
+  rewrite T1 in Tot. injection Tot as Ew. split; [rewrite <- Ew; exact Rg|].
+  destruct total as [t|]; [|trivial].
+  (* the declared total survives in STREAMINFO and finalize compared it with the count *)
+  unfold sample_new in Hn. apply bind_ok in Hn. destruct Hn as (b & Hb & Hn).
+  apply bind_ok in Hn. destruct Hn as (t' & Ht & Hn). apply bind_ok in Hn. destruct Hn as (e0 & He0 & Hn).
+  inversion Hn; subst w. clear Hn. cbn [sw_enc] in Se.
+  pose proof (encoder_new_inv p _ _ _ _ _ _ _ He0) as Inv.
+  destruct Inv as (Hch & _ & _ & _ & _ & Etot & _).
+  unfold sample_total in Ht. destruct (exact_div t ch) as [q|] eqn:Eq; [|discriminate].
+  destruct (N.eqb_spec q 0); [discriminate|]. injection Ht as Et'. rewrite <- Et' in Etot.
+  apply exact_div_some in Eq. destruct Eq as (Hc0 & Hmod & Hq).
+  unfold static_eq in Se. destruct Se as (_ & _ & _ & _ & _ & _ & _ & _ & _ & St).
+  unfold encoder_finalize, encoder_finalize_gen in Hfin.
+  apply bind_ok in Hfin. destruct Hfin as (bl & _ & Hfin). apply bind_ok in Hfin. destruct Hfin as (tt & Htt & _).
+  unfold finalize_total in Htt. rewrite St, Etot in Htt.
+  destruct (N.eqb_spec q (e_samples_written (f_enc f))) as [E|E]; [|discriminate].
+  rewrite (inv_written _ I), Ew in E.
+  pose proof (N.div_mod t ch Hc0) as Dm. rewrite Hmod, <- Hq, E in Dm. lia.
 Qed.
 
 End Run.
